@@ -99,8 +99,11 @@ def expected(case):
             # death is observed through terminate(), which may itself be what ends a worker that is still busy
             own = list(own) + [(True, None, WTE), (True, None, None)]
         return own
-    # an asynchronous event was involved: the ending's own outcome, WorkerTerminatedError, or nothing reportable
-    acc = list(own) + [(True, None, WTE), (True, None, None)]
+    # an asynchronous event was involved: the ending's own outcome or WorkerTerminatedError; "nothing could be reported" only
+    # when the child was killed (a graceful request lets the child report)
+    acc = list(own) + [(True, None, WTE)]
+    if any(e['action'] in ('sigkill', 'sigterm') for e in (case.get('events') or [])) or len(case.get('events') or []) > 1:
+        acc.append((True, None, None))
     if t == 'p_poison':
         acc += [(True, None, {'exc': 'ValueError', 'args': ['poison', 99]})]
     return acc
